@@ -15,7 +15,7 @@ git -C /repo worktree add --detach $WT HEAD >>$LOG 2>&1 || { echo "worktree fail
 cd $WT
 DEMO=$(ls $SEED/*_test.go 2>/dev/null | head -1)
 DEMOPKG=$(python3 -c "import json;print(json.load(open('$SEED/meta.json')).get('demo_pkg',''))" 2>/dev/null)
-if [ -z "$DEMOPKG" ]; then DEMOPKG=$(grep -o '^package [a-z_]*' $DEMO | head -1 | awk '{print $2}'); fi
+if [ -z "$DEMOPKG" ]; then DEMOPKG=$(grep -o '^package [a-z0-9_]*' $DEMO | head -1 | awk '{print $2}'); fi
 case $DEMOPKG in lib) DIR=lib;; fsm) DIR=fsm;; store) DIR=store;; bft) DIR=bft;; controller) DIR=controller;; p2p) DIR=p2p;; crypto) DIR=lib/crypto;; *) DIR=$DEMOPKG;; esac
 [ -n "${DEMO_DIR:-}" ] && DIR=$DEMO_DIR
 RUN=$(grep -o 'func Test[A-Za-z0-9_]*' $DEMO | awk '{print $2}' | paste -sd'|')
